@@ -24,10 +24,10 @@ META = {
     "assumptions": ["reference list M computed by the harness (magnitude threshold + C01-style inside test on interior points)",
                     "evaluation correctness itself is C10's business: here only history independence"],
     "deciding": ["history:pass-stream", "history:counts", "history:rates", "history:evaluation-independence", "invariant:quiescent-state"],
-    "exhaustive_tiers": {"quick": {"histories of length <= 2 over 12 operations x 13 configurations": True},
-                         "thorough": {"histories of length <= 3 over 12 ops + length 4 over 6 state-touching ops x 13 configurations": True}},
+    "exhaustive_tiers": {"quick": {"histories of length <= 2 over 12 operations x 18 configurations": True},
+                         "thorough": {"histories of length <= 3 over 12 ops + length 4 over 6 state-touching ops x 18 configurations": True}},
 }
-META["added"] = "Added: in-memory catalogs bound to a larger region under the spatial filter. catalogs gridded on another region before. regions that do not fill their bounding box (a missing lattice cell; events in the hole are outside), magnitudes far above the last edge in the synthetic catalogs. in-memory forecasts without n_cat (13 configurations), spatial_counts(cartesian=True) as a twelfth operation, empty-first catalog layouts. in-memory catalogs that only declare the forecast's filter statements. region-less in-memory catalogs, reference = equivalent pre-filtered plain forecast. empty observations, id gaps in files, catalogs bound to another region."
+META["added"] = "Added: in-memory catalogs bound to a larger region under the spatial filter. catalogs gridded on another region before. regions that do not fill their bounding box (a missing lattice cell; events in the hole are outside), magnitudes far above the last edge in the synthetic catalogs. in-memory forecasts without n_cat (13 configurations), spatial_counts(cartesian=True) as a twelfth operation, empty-first catalog layouts. in-memory catalogs that only declare the forecast's filter statements. region-less in-memory catalogs, reference = equivalent pre-filtered plain forecast. empty observations, id gaps in files, catalogs bound to another region. the caller overwrites returned count arrays; the completeness filter (apply_mct + mainshock) as a third configurable filter."
 MANIFEST = {
     "technique": "sequential history log on a live CatalogForecast checked op-by-op against a reference model (filtered catalog list) and, for evaluations, against the equivalent pre-filtered plain forecast; quiescent-state invariant after each complete operation; exhaustive short histories + random long ones",
     "level_text": "All operation histories up to length 2 (quick) / 3-4 (thorough) over the 12 public operations are enumerated on 13 source/filter configurations; each step's observable result (pass stream, event counts, n_cat, expected rates, marginals, the six evaluations) must equal the single-pass reference regardless of what was called before, and the iterator must be back in its initial state after every complete operation.",
@@ -52,7 +52,29 @@ def configs():
                 if src == "memory_no_ncat" and (filt or sp):
                     continue
                 out.append({"source": src, "filters": filt, "spatial": sp})
+    # the third configurable filter: the time-dependent magnitude of completeness after a mainshock (apply_mct + event), alone and with a statement
+    for src in SOURCES:
+        if src != "memory_no_ncat":
+            out.append({"source": src, "filters": False, "spatial": False, "mct": True})
+    out.append({"source": "memory", "filters": True, "spatial": False, "mct": True})
+    out.append({"source": "file_nostore", "filters": True, "spatial": True, "mct": True})
     return out
+
+
+# mainshock of the completeness filter: M7.2 one minute before the first synthetic event (events follow at 1 s spacing). Helmstetter et al. (2006)
+# Eq. 15: Mc(t) = M - 4.5 - 0.75 log10(t [days]); at 60..78 s Mc lies between 5.07 and 4.983 (removes the M4.98 events, keeps M5.08), from 79 s on
+# it is below 4.98 - the nearest event magnitude is more than 1e-3 away from Mc at every whole second, so no decision hinges on round-off
+MCT_M, MCT_T0 = 7.2, 1262304000000 - 60000
+
+
+def mct_removes(e):
+    dt = e[1] - MCT_T0
+    t_crit_ms = 10 ** -((2.5 - MCT_M + 4.5) / 0.75) * 86400000.0
+    if dt < 0 or dt > t_crit_ms:
+        return False
+    if dt == 0:
+        return True
+    return e[5] < MCT_M - 4.5 - 0.75 * math.log10(dt / 86400000.0)
 
 
 def gen_forecast(rng, cfg):
@@ -119,6 +141,8 @@ def reference(fc, cfg):
         for e in evs:
             if cfg["filters"] and not (e[5] >= MIN_MAG):
                 continue
+            if cfg.get("mct") and mct_removes(e):
+                continue
             inside = (ax <= e[3] < ax + nx * dh) and (ay <= e[2] < ay + ny * dh)
             if inside and fc.get("hole") is not None:
                 inside = [int(math.floor((e[3] - ax) / dh)), int(math.floor((e[2] - ay) / dh))] != list(fc["hole"])
@@ -141,8 +165,13 @@ def build(fc, cfg, tmpdir):
     nx, ny, dh, ax, ay = fc["grid"]
     mags = fixtures.mag_bins("4.95", "0.1", 4)
     reg = fixtures.region(nx, ny, dh, ax, ay, magnitudes=mags, active=_active(fc))
-    kw = {"region": reg, "apply_filters": bool(cfg["filters"] or cfg["spatial"]), "filter_spatial": bool(cfg["spatial"]),
+    kw = {"region": reg, "apply_filters": bool(cfg["filters"] or cfg["spatial"] or cfg.get("mct")), "filter_spatial": bool(cfg["spatial"]),
           "filters": ["magnitude >= %r" % MIN_MAG] if cfg["filters"] else [], "name": "cf"}
+    if cfg.get("mct"):
+        import types
+        import datetime as _dt
+        kw["apply_mct"] = True
+        kw["event"] = types.SimpleNamespace(magnitude=MCT_M, time=_dt.datetime(1970, 1, 1, tzinfo=_dt.timezone.utc) + _dt.timedelta(milliseconds=MCT_T0))
     if cfg["source"].startswith("memory"):
         cats = []
         # every other forecast: the in-memory catalogs carry no region of their own (the forecast's region is bound to them when they are gridded)
@@ -278,7 +307,7 @@ def _run_history(ctx, fc, cfg, ops, tmp, cache):
     mean = grid_ref(M, fc)
     ok, built, tb = ctx.call(build, fc, cfg, tmp)
     ctx.count(1)
-    tags0 = {"source": cfg["source"], "filters": cfg["filters"], "spatial": cfg["spatial"]}
+    tags0 = {"source": cfg["source"], "filters": cfg["filters"], "spatial": cfg["spatial"], "mct": bool(cfg.get("mct"))}
     if not ok:
         ctx.violate("building the forecast raised", rc, observed=repr(built), tb=tb, tags=tags0)
         return
@@ -331,7 +360,7 @@ def _run_history(ctx, fc, cfg, ops, tmp, cache):
                 ctx.violate("forecast marginal counts != marginals of the mean rates", rc, observed=val, expected=want, tags=dict(tags, clause="marginals"))
         else:
             ctx.mon("history:evaluation-independence", 1)
-            key = (digest(fc), cfg["source"], cfg["filters"], cfg["spatial"], op)
+            key = (digest(fc), cfg["source"], cfg["filters"], cfg["spatial"], bool(cfg.get("mct")), op)
             if key not in cache:
                 # reference: the same evaluation on the equivalent plain forecast (pre-filtered in-memory catalogs, nothing configured)
                 okf, fresh, tbf = ctx.call(build_plain, fc, cfg)
